@@ -35,7 +35,7 @@ PROPS = {
         "assumptions": ["ParseFloat key order-isomorphic to float order", "trial names are unique (Kubernetes)"],
     },
     "C03": {
-        "prop_files": ["Katib/Props/C03.lean", "Katib/Props/C03Ctl.lean", 'Katib/Props/C03World.lean', 'Katib/Props/C03Frozen.lean', 'Katib/Props/C04Resume.lean', 'Katib/Props/C03Restartable.lean'],
+        "prop_files": ["Katib/Props/C03.lean", "Katib/Props/C03Ctl.lean", 'Katib/Props/C03World.lean', 'Katib/Props/C03Frozen.lean', 'Katib/Props/C04Resume.lean', 'Katib/Props/C03Restartable.lean', 'Katib/Props/C03Guards.lean'],
         "streams": [("C03", {"quick": 30000, "thorough": 600000}), ("SIM", {"quick": 240, "thorough": 8000})],
         "rule": "same generator as C05 with stored conditions in every completion state (none/Succeeded by 3 reasons/Failed/stale False verdicts), "
                 "budgets maxTrialCount 1-6 or unset, maxFailedTrialCount 0-4 or unset, goal set/unset; non-trivial = at least one trial with a metric",
@@ -120,7 +120,7 @@ PROPS = {
         "assumptions": ["informer caches are monotone per kind", "run objects are removed by others only after their Trial completed", "algorithm service returns fresh names"],
     },
     "C16": {
-        "prop_files": ['Katib/Props/C16.lean', 'Katib/Props/C16World.lean', 'Katib/Props/C16Succeeded.lean', 'Katib/Props/C16Quiescent.lean', 'Katib/Props/C07Guards.lean'],
+        "prop_files": ['Katib/Props/C16.lean', 'Katib/Props/C16World.lean', 'Katib/Props/C16Succeeded.lean', 'Katib/Props/C16Quiescent.lean', 'Katib/Props/C07Guards.lean', 'Katib/Props/C03Guards.lean'],
         "streams": [('SIM', {'quick': 240, 'thorough': 8000})],
         "rule": "seeded random schedules of the three real reconcilers on the fake client (1-2 experiments, optionally equally named in two namespaces; maxTrialCount 1-4/unset, parallel 1-3, maxFailed, goal, three resume policies, early stopping, retain, push collector), ops = reconciles with per-kind monotone lagging views (random lag, stalled informers, one kind's cache held for several reconciles - also exactly at the Experiment copy from before its verdict), write-fault masks, abort points, algorithm reply faults (short/long/error, rules RPC error), job outcomes, metric arrival (also after the verdict), early stop, deployment ready, external removal of a completed trial's run object, a run-object-creating reconcile cut off before its status write with the job finishing before the retry; scripted RPC failures cycle through gRPC status codes; then fault-free settling to quiescence, a quiescence probe, optionally one or two budget raises each with a second settling, and optionally a teardown in which Trials are deleted and reconciled while the database call or the finalizer write fails; every op's write log and the whole store are compared with the Lean model; a case = one schedule; distinct = distinct op sequence",
         "trusted": ["controller-runtime fake client stands in for the kube-apiserver (rv conflicts, status subresource, AlreadyExists)",
